@@ -1,6 +1,7 @@
 package main
 
 import (
+	"regexp"
 	"encoding/json"
 	"flag"
 	"fmt"
@@ -72,6 +73,9 @@ func hasProp(ps []string, p string) bool {
 	}
 	return false
 }
+
+// obligations that are steps of a proof rather than statements of a property
+var reInternal = regexp.MustCompile(`/loop\d+/(established|preserved|decreases)|/call [^/]+/(requires|wf|closure-requires|closure-frame-disjoint|decreases)`)
 
 func main() {
 	repo := flag.String("repo", "/repo", "repository to verify")
@@ -240,6 +244,12 @@ func main() {
 			}
 		} else {
 			nm := o.Name
+			if reInternal.MatchString(o.Name) && !hasProp(o.Props, "AUX") {
+				// proof-internal step (loop invariant established / preserved, variant, precondition of a callee at a
+				// call site): its failure means that the proof of this function does not go through for the code as
+				// it is now - the function is undecided (the bounded oracle decides), it is not a property violation
+				nm = "engine/" + o.Func + ": proof step " + o.Name + " not discharged"
+			}
 			if hasProp(o.Props, "AUX") {
 				// auxiliary (implementation-level) clause: stronger than any property; a failure makes the
 				// proofs that rely on it undecided, it is not itself a property violation
